@@ -280,6 +280,13 @@ func scenario(id string, seed uint64, sh shape, held bool, real string) runner.R
 		cfg.Desc += " transport=" + real
 		held = false
 	}
+	if real == "" && payload.Hash(seed, 0xC1A6)%6 == 0 {
+		// transports whose Read reports (0, nil) once before every piece of data it hands out
+		cfg.Net.EmptyReadsA, cfg.Net.EmptyReadsB = true, true
+		k := 1 + int(payload.Hash(seed, 0xC1A7)%8)
+		cfg.Net.ChunkA, cfg.Net.ChunkB = simnet.ChunkK{K: k}, simnet.ChunkK{K: k}
+		cfg.Desc += fmt.Sprintf(" empty-read-before-each-piece-of-at-most-%d-bytes", k)
+	}
 	if sh.name == "slow-rpc-inactivity-timeout" {
 		cfg.Server.InactivityTimeout = 40 * time.Millisecond
 		cfg.Desc += " server-inactivity-timeout=40ms"
